@@ -1,6 +1,261 @@
-//! C01: not implemented yet.
+//! C01: tamper evidence of the signed asset content.
+//! A case names an asset recipe {name, src: "fixture:<file>" | "hex:<bytes>", format, binding: data|box|bmff}
+//! (signed once, cached under <build>/cases/c01_assets/<name>.bin) and an operation:
+//!   op "prepare": (re)sign; out: length, signed hard binding (exclusions / boxes / bmff exclusions), handler box map,
+//!                 report and report-JSON digest of the untouched read.
+//!   op "mut":     apply mutation m = {k: set|flip|insert|delete|append|truncate, pos, val|bit|hex|n} to the signed
+//!                 bytes and read back through Reader; out: state, codes, digest of the stable report JSON;
+//!                 with "direct": also run the *signed* assertion's verifier directly on the mutated bytes
+//!                 (DataHash/BoxHash/BmffHash::verify_stream_hash) and, with "map", return the handler box map of
+//!                 the mutated bytes.
+use std::{cell::RefCell, collections::HashMap, io::Cursor, rc::Rc, sync::Arc};
+
+use c2pa::{
+    verif_hooks::c01::{box_map, box_verify, hard_bindings, VerifBinding},
+    Context, Reader,
+};
 use serde_json::{json, Value};
 
-pub fn run(_case: &Value) -> Value {
-    json!({"r": "unimplemented"})
+use crate::{e2e, util::*};
+
+struct Asset {
+    bytes: Vec<u8>,
+    alg: String,
+    bindings: Vec<VerifBinding>,
+}
+
+thread_local! {
+    static ASSETS: RefCell<HashMap<String, Rc<Asset>>> = RefCell::new(HashMap::new());
+    static CTX: Arc<Context> = Arc::new(e2e::context(None));
+}
+
+fn assets_dir() -> String {
+    let b = std::env::var("VERIF_BUILD").unwrap_or_else(|_| "/verif/.build".to_string());
+    format!("{b}/cases/c01_assets")
+}
+
+fn src_bytes(spec: &str) -> Vec<u8> {
+    if let Some(f) = spec.strip_prefix("fixture:") {
+        e2e::fixture(f)
+    } else if let Some(h) = spec.strip_prefix("hex:") {
+        hex::decode(h).expect("hex src")
+    } else {
+        panic!("bad src spec")
+    }
+}
+
+fn sign_asset(recipe: &Value) -> Result<Vec<u8>, String> {
+    let format = recipe["format"].as_str().unwrap_or("image/jpeg");
+    let src = src_bytes(recipe["src"].as_str().unwrap_or(""));
+    let binding = recipe["binding"].as_str().unwrap_or("data");
+    let mut extra = json!({"builder": {"thumbnail": {"enabled": false}}});
+    if binding == "box" {
+        extra["core"] = json!({"prefer_compress_manifests": true});
+    }
+    let ctx = e2e::context(Some(&extra.to_string()));
+    let signer = e2e::signer(recipe["alg"].as_str().unwrap_or("ed25519"));
+    let def = e2e::minimal_manifest(recipe["name"].as_str().unwrap_or("t"));
+    let first = e2e::sign(ctx, &def, format, &src, signer.as_ref()).map_err(|e| err_class(&e))?;
+    if binding != "update" {
+        return Ok(first);
+    }
+    // an update manifest on top of the data-hash manifest: the source stream becomes the parentOf ingredient
+    let ctx = e2e::context(Some(&extra.to_string()));
+    let def = json!({"title": "update", "claim_generator_info": [{"name": "verif-harness", "version": "0.1"}]}).to_string();
+    let mut b = c2pa::Builder::from_context(ctx).with_definition(def.as_str()).map_err(|e| err_class(&e))?;
+    b.set_intent(c2pa::BuilderIntent::Update);
+    let mut input = Cursor::new(first);
+    let mut out = Cursor::new(Vec::new());
+    b.sign(signer.as_ref(), format, &mut input, &mut out).map_err(|e| format!("update: {} {}", err_class(&e), e))?;
+    Ok(out.into_inner())
+}
+
+fn load(recipe: &Value, fresh: bool) -> Result<Rc<Asset>, String> {
+    let name = recipe["name"].as_str().unwrap_or("asset").to_string();
+    if !fresh {
+        if let Some(a) = ASSETS.with(|m| m.borrow().get(&name).cloned()) {
+            return Ok(a);
+        }
+    }
+    let dir = assets_dir();
+    let path = format!("{dir}/{name}.bin");
+    let bytes = match (fresh, std::fs::read(&path)) {
+        (false, Ok(b)) => b,
+        _ => {
+            let b = sign_asset(recipe)?;
+            std::fs::create_dir_all(&dir).ok();
+            let tmp = format!("{path}.{}.tmp", std::process::id());
+            std::fs::write(&tmp, &b).map_err(|e| e.to_string())?;
+            std::fs::rename(&tmp, &path).map_err(|e| e.to_string())?;
+            b
+        }
+    };
+    let format = recipe["format"].as_str().unwrap_or("image/jpeg");
+    let (alg, _upd, bindings) = hard_bindings(format, &bytes).map_err(|e| format!("bindings: {}", err_class(&e)))?;
+    let a = Rc::new(Asset { bytes, alg, bindings });
+    ASSETS.with(|m| m.borrow_mut().insert(name, a.clone()));
+    Ok(a)
+}
+
+/// JSON text with object keys sorted (Reader::json() iterates hash maps in arbitrary order)
+fn canon(v: &Value) -> String {
+    match v {
+        Value::Object(m) => {
+            let mut keys: Vec<&String> = m.keys().collect();
+            keys.sort();
+            let parts: Vec<String> = keys.iter().map(|k| format!("{}:{}", Value::String((*k).clone()), canon(&m[*k]))).collect();
+            format!("{{{}}}", parts.join(","))
+        }
+        Value::Array(a) => format!("[{}]", a.iter().map(canon).collect::<Vec<_>>().join(",")),
+        _ => v.to_string(),
+    }
+}
+
+fn fnv(s: &str) -> String {
+    let mut h: u64 = 0xcbf29ce484222325;
+    for b in s.as_bytes() {
+        h ^= *b as u64;
+        h = h.wrapping_mul(0x100000001b3);
+    }
+    format!("{h:016x}")
+}
+
+fn read_report(format: &str, bytes: &[u8]) -> Value {
+    let ctx = CTX.with(|c| c.clone());
+    match Reader::from_shared_context(&ctx).with_stream(format, Cursor::new(bytes.to_vec())) {
+        Ok(r) => {
+            let rep = e2e::report(&r);
+            let js = canon(&e2e::stable_json(&r));
+            json!({"r": "ok", "state": rep["state"], "failure": rep["failure"], "success": rep["success"],
+                   "informational": rep["informational"], "jh": fnv(&js), "jlen": js.len()})
+        }
+        Err(e) => json!({"r": "err", "kind": err_class(&e)}),
+    }
+}
+
+fn binding_json(a: &Asset) -> Value {
+    let mut out = vec![];
+    for b in &a.bindings {
+        out.push(match b {
+            VerifBinding::Data(dh) => json!({
+                "kind": "data", "alg": dh.alg,
+                "exclusions": dh.exclusions.as_ref().map(|v| v.iter().map(|r| json!([r.start(), r.length()])).collect::<Vec<_>>()),
+                "hash": hexe(&dh.hash)}),
+            VerifBinding::Box(bh) => json!({
+                "kind": "box",
+                "boxes": bh.boxes.iter().map(|b| json!({"names": b.names, "alg": b.alg, "hash": hexe(&b.hash),
+                                                       "excluded": b.excluded, "pad": b.pad.len()})).collect::<Vec<_>>()}),
+            VerifBinding::Bmff(bm) => json!({
+                "kind": "bmff", "alg": bm.alg(), "version": bm.bmff_version(),
+                "hash": bm.hash().map(|h| hexe(h)),
+                "merkle": bm.merkle().map(|m| m.len()),
+                "exclusions": serde_json::to_value(bm.exclusions()).unwrap_or(Value::Null)}),
+        });
+    }
+    json!(out)
+}
+
+fn map_json(format: &str, bytes: &[u8]) -> Value {
+    match box_map(format, bytes) {
+        Ok(m) => json!(m.iter().map(|(n, s, l, x)| json!({"names": n, "start": s, "len": l, "excluded": x})).collect::<Vec<_>>()),
+        Err(e) => json!({"err": err_class(&e)}),
+    }
+}
+
+pub fn mutate(base: &[u8], m: &Value) -> Vec<u8> {
+    let mut v = base.to_vec();
+    let pos = m["pos"].as_u64().unwrap_or(0) as usize;
+    match m["k"].as_str().unwrap_or("") {
+        "set" => {
+            if pos < v.len() {
+                v[pos] = m["val"].as_u64().unwrap_or(0) as u8;
+            }
+        }
+        "flip" => {
+            if pos < v.len() {
+                v[pos] ^= 1u8 << (m["bit"].as_u64().unwrap_or(0) as u32 & 7);
+            }
+        }
+        "insert" => {
+            let ins = hexd(&m["hex"]);
+            let p = pos.min(v.len());
+            v.splice(p..p, ins);
+        }
+        "delete" => {
+            let n = m["n"].as_u64().unwrap_or(1) as usize;
+            let p = pos.min(v.len());
+            let e = (p + n).min(v.len());
+            v.drain(p..e);
+        }
+        "append" => v.extend_from_slice(&hexd(&m["hex"])),
+        "truncate" => {
+            let n = m["n"].as_u64().unwrap_or(1) as usize;
+            let l = v.len().saturating_sub(n);
+            v.truncate(l);
+        }
+        "none" => {}
+        other => panic!("unknown mutation {other}"),
+    }
+    v
+}
+
+fn direct(a: &Asset, format: &str, bytes: &[u8]) -> Value {
+    let mut out = vec![];
+    for b in &a.bindings {
+        let r = match b {
+            VerifBinding::Data(dh) => dh.verify_stream_hash(&mut Cursor::new(bytes), Some(&a.alg)),
+            VerifBinding::Box(bh) => box_verify(bh, format, bytes, Some(&a.alg)),
+            VerifBinding::Bmff(bm) => bm.verify_stream_hash(&mut Cursor::new(bytes), Some(&a.alg)),
+        };
+        out.push(match r {
+            Ok(()) => json!("ok"),
+            Err(e) => json!(format!("err:{}:{}", err_class(&e), e)),
+        });
+    }
+    json!(out)
+}
+
+pub fn run(case: &Value) -> Value {
+    let recipe = &case["asset"];
+    let format = recipe["format"].as_str().unwrap_or("image/jpeg");
+    match case["op"].as_str().unwrap_or("mut") {
+        "prepare" => {
+            let a = match load(recipe, case["fresh"].as_bool().unwrap_or(true)) {
+                Ok(a) => a,
+                Err(e) => return json!({"r": "err", "stage": "sign", "kind": e}),
+            };
+            let t0 = std::time::Instant::now();
+            let rep = read_report(format, &a.bytes);
+            let ms = t0.elapsed().as_millis() as u64;
+            let mut out = json!({"r": "ok", "len": a.bytes.len(), "alg": a.alg, "binding": binding_json(&a),
+                                 "read": rep, "read_ms": ms, "direct": direct(&a, format, &a.bytes)});
+            if case["map"].as_bool().unwrap_or(false) {
+                out["map"] = map_json(format, &a.bytes);
+            }
+            if case["bytes"].as_bool().unwrap_or(false) {
+                out["hex"] = json!(hexe(&a.bytes));
+            }
+            if let Ok(j) = c2pa::jumbf_io::load_jumbf_from_stream(format, &mut Cursor::new(&a.bytes)) {
+                // where the manifest store payload sits in the file (first occurrence of its first 64 bytes)
+                out["jumbf_len"] = json!(j.len());
+            }
+            out
+        }
+        _ => {
+            let a = match load(recipe, false) {
+                Ok(a) => a,
+                Err(e) => return json!({"r": "err", "stage": "sign", "kind": e}),
+            };
+            let bytes = mutate(&a.bytes, &case["m"]);
+            let mut out = read_report(format, &bytes);
+            out["len"] = json!(bytes.len());
+            if case["direct"].as_bool().unwrap_or(false) {
+                out["direct"] = direct(&a, format, &bytes);
+            }
+            if case["map"].as_bool().unwrap_or(false) {
+                out["map"] = map_json(format, &bytes);
+            }
+            out
+        }
+    }
 }
